@@ -160,7 +160,7 @@ PROPS["C08"] = {
     "assumptions": ["strings.ToLower modelled for ASCII (non-ASCII e-mails are run on the implementation and the oracle only)",
                     "net/url Hostname()/Port() of a bare host modelled by split_host_port_lax"],
     "trusted_base": ["reference reading of the e-mail rules written in the driver (vRefEmailOK)"],
-    "level_text": "c08_email_spec (validator = empty-check, '*', per-domain rule on the part after the last '@', file membership; for all "
+    "level_text": "c08_login_rules / c08_admitted_then_served / c08_served_then_admissible (login admission and the per-request rule coincide); c08_email_spec (validator = empty-check, '*', per-domain rule on the part after the last '@', file membership; for all "
                   "strings), c08_groups_spec, c08_served / c08_refused (every non-bypassed request: served only if the session passes the rules "
                   "passed to THIS call; a failing session is denied and its cookie cleared), c08_auth_only, c08_entities, "
                   "c08_groups_constraint, c08_emails_constraint are proved on the Gallina model of validator.go / Authorize / "
@@ -180,7 +180,7 @@ PROPS["C07"] = {
     "assumptions": ["net/http Header Add/Del/Set and textproto.CanonicalMIMEHeaderKey are modelled (association list with canonical keys)",
                     "time.Time.String() rendering of created_at / expires_on is passed through as an opaque string"],
     "trusted_base": ["spoof markers and reconstruction of the expected user / access-token header in the driver"],
-    "level_text": "c07_header_writes_pinned / c07_header_writes_reviewed (every Set / Add / Del on a header map in ALL non-test sources outside the provider clients, regenerated on every run, is the reviewed list: injectors, strip, flatten, the GAP-Auth copy of the authenticated user, fixed response headers); c07_legacy_request_authorization / c07_legacy_response_authorization / c07_legacy_preserve_uniform (the conversion of the legacy flags, Model/LegacyHeaders.v: which Authorization entry each flag combination yields and that every generated entry carries the same preserve bit = not skip-auth-strip-headers), compared with LegacyHeaders.convert on all 2x512 flag masks on every run; c07_request (for every client header map, optional session and configuration: value under a configured name = client "
+    "level_text": "c07_option_tags_regular (flag tags of all option fields regenerated and regular); c07_header_writes_pinned / c07_header_writes_reviewed (every Set / Add / Del on a header map in ALL non-test sources outside the provider clients, regenerated on every run, is the reviewed list: injectors, strip, flatten, the GAP-Auth copy of the authenticated user, fixed response headers); c07_legacy_request_authorization / c07_legacy_response_authorization / c07_legacy_preserve_uniform (the conversion of the legacy flags, Model/LegacyHeaders.v: which Authorization entry each flag combination yields and that every generated entry carries the same preserve bit = not skip-auth-strip-headers), compared with LegacyHeaders.convert on all 2x512 flag masks on every run; c07_request (for every client header map, optional session and configuration: value under a configured name = client "
                   "values only if no entry strips it, then the session/secret-derived values in configuration order, comma-joined), "
                   "c07_client_values_ignored (non-interference for stripped names), c07_bypass, c07_empty_claim, c07_response are proved on "
                   "the Gallina model of stripHeaders / Inject / flattenHeaders / GetClaim; compared with the Go injectors on every run.",
@@ -263,7 +263,7 @@ PROPS["C12"] = {
                     "(one model step per store/lock/provider operation)",
                     "no lock-expiry step (the property's proviso); the expiry boundary is shown as a concrete trace (expiry_boundary)"],
     "trusted_base": ["the scheduler in the driver (a request blocked on a held lock is not schedulable)"],
-    "level_text": "c12_write_before_validate_refuted / c12_validate_before_write_safe (providers without refresh support, Model/StampRace.v: the re-stamped session is written before it is validated, so a concurrent request can be served without validation - known finding F22 - while with validation first nobody is served in any interleaving; compared with the real proxy on every explored schedule); c12_refresh_chain (against single-use refresh tokens a chain of refreshes of any length never presents a consumed token, whichever responses carry an ID token); c12_once is proved for ANY number of requests and ANY interleaving (inductive three-phase invariant over the transition "
+    "level_text": "c12_refreshed_session_usable / c12_unstamped_refresh_expired (a just-refreshed session's expiry counts from the refresh iff it is re-stamped first), c12_expires_in_sites_pinned (regenerated ExpiresIn call sites); c12_write_before_validate_refuted / c12_validate_before_write_safe (providers without refresh support, Model/StampRace.v: the re-stamped session is written before it is validated, so a concurrent request can be served without validation - known finding F22 - while with validation first nobody is served in any interleaving; compared with the real proxy on every explored schedule); c12_refresh_chain (against single-use refresh tokens a chain of refreshes of any length never presents a consumed token, whichever responses carry an ID token); c12_once is proved for ANY number of requests and ANY interleaving (inductive three-phase invariant over the transition "
                   "system of Model/Refresh.v): at most one refresh, none with a consumed token, every finished request served with the "
                   "refreshed session; c12_never_stale, c12_seq_never_stale, c12_run_reachable; the model is run on every schedule the Go "
                   "scheduler explores and the per-schedule outcome (refresh counts, each request's result and upstream token) compared.",
@@ -322,7 +322,7 @@ PROPS["C05"] = {
     "assumptions": OIDC_ASSUME + ["SHA-256 modelled as a function; freshness of crypto/rand is an assumption (the run checks distinctness of "
                                   "what it observed)"],
     "trusted_base": ["the in-memory provider"],
-    "level_text": "c05_nonce, c05_missing_nonce, c05_raw_nonce (validation with nonce checking passes only if the ID token's nonce claim equals "
+    "level_text": "c05_unknown_method_refused / c05_verifier_in_clear_only_plain (the configured method as a string: anything but S256 / plain starts no login; the verifier is its own challenge only under plain), c05_challenge_switch_pinned (GenerateCodeChallenge's switch regenerated from the source); c05_nonce, c05_missing_nonce, c05_raw_nonce (validation with nonce checking passes only if the ID token's nonce claim equals "
                   "the hash of this login's stored nonce; absent/null/empty/raw values fail), c05_verifier_shape (128 unreserved characters "
                   "from the regenerated 96 random bytes, within RFC 7636's 43..128), c05_verifier_fresh (injective in the randomness), "
                   "c05_challenge are proved on the Gallina models; c05_secrecy / c05_secrecy_plain / c05_plain_discloses_verifier (an "
@@ -342,7 +342,7 @@ PROPS["C14"] = {
             "provider entry paths with a failing profile endpoint are compared with the model; non-trivial = all",
     "assumptions": OIDC_ASSUME + ["'slow beyond timeout' is injected as a context-deadline error from the transport"],
     "trusted_base": ["the in-memory provider's fault injection"],
-    "level_text": "c14_generic_login_only_if / c14_generic_error_status_no_session / c14_generic_validate_only_if (non-OIDC provider family, Model/GenericProvider.v: a session only from a 200 token response carrying an access token, validation only from a 200 answer), compared with the generic provider on every run; c14_no_id_token, c14_unverified, c14_audience_wrong_type, c14_profile_failure, c14_refresh_failure are proved on the Gallina "
+    "level_text": "c14_no_email_no_session (no admission without an e-mail under any e-mail-domain configuration); c14_generic_login_only_if / c14_generic_error_status_no_session / c14_generic_validate_only_if (non-OIDC provider family, Model/GenericProvider.v: a session only from a 200 token response carrying an access token, validation only from a 200 answer), compared with the generic provider on every run; c14_no_id_token, c14_unverified, c14_audience_wrong_type, c14_profile_failure, c14_refresh_failure are proved on the Gallina "
                   "models (Oidc.v, Refresh.v); oracles on the real proxy check that no session is created or extended at any faulted position "
                   "and that handling does not panic, on every run; a sweep over every provider implementation (19 configurations built by NewProvider) replaces one position of one response document by a value of another JSON type and checks that no provider call panics.",
     "level_note": "transport-level behaviour (timeouts, resets) is exercised, not modelled; the provider-specific decoders outside the OIDC / generic families are covered by the panic-site inventory (C19) and the sweep, not by a model.",
